@@ -64,6 +64,8 @@ def one_batch(seed: int) -> list:
             area_forms.append(("neg", (neg(x, w), neg(y, h), neg(z, w), neg(t, h))))
         for form, c in area_forms:
             rec("get_values", form, a, lambda c=c: [vals(r) for r in table.get_values(c)])
+            # the generator form of the same read
+            rec("get_values", form + "-iter", a, lambda c=c: [vals(r) for r in table.iter_values(c)])
             rec("get_cells", form, a, lambda c=c: [codes(r) for r in table.get_cells(c)])
         # rows
         rows_forms = [("tuple2", (y, t)), ("str", f"{y + 1}:{t + 1}"), ("tuple4", (0, y, w, t))]
